@@ -38,6 +38,7 @@ from fractions import Fraction
 import numpy as np
 
 import lib
+import twoindex
 from lib import XShell, call_impl, compare, run_cases, short_float, shrink_shell_json, sx
 
 RULE = ("block level: shell quartets with l in 0..3; quick = stratified seed-dependent sample of ~45 l-tuples "
@@ -828,7 +829,7 @@ def gen_basis_cases(rng, tier):
         if withT:
             nf = sum(s.nfun() for s in shells)
             nr = rng.choice([1, 2, nf, nf + 1])
-            case["T"] = [[str(Fraction(rng.randint(-8, 8), 8)) for _ in range(nf)] for _ in range(nr)]
+            case["T"] = [[str(x) for x in row] for row in twoindex.gen_transform(rng, nr, nf)]
         cases.append(case)
     # invalid notations must be refused
     for bad in (("Chemist", "physicists") if tier == "quick" else ("Chemist", "physicists", "", "mulliken", "chem")):
